@@ -32,7 +32,7 @@ mkdir -p $V/ocaml/extracted $V/ocaml/_build
 cd $V/ocaml/extracted || exit 2
 NEED=0
 [ -x $V/ocaml/driver ] || NEED=1
-for f in $V/coq/Model/*.vo $V/coq/Lib/*.vo $V/coq/Generated/*.vo $V/coq/Extract/Extract.v $V/ocaml/driver.ml; do
+for f in $V/coq/Model/*.vo $V/coq/Spec/*.vo $V/coq/Lib/*.vo $V/coq/Generated/*.vo $V/coq/Extract/Extract.v $V/ocaml/driver.ml; do
   [ -e "$f" ] && [ "$f" -nt $V/ocaml/driver ] && NEED=1
 done
 if [ $NEED = 1 ]; then
